@@ -10,6 +10,7 @@ import (
 	"github.com/dgraph-io/badger"
 	"github.com/jirenius/go-res/logger"
 	"github.com/jirenius/go-res/store"
+	"github.com/jirenius/go-res/verifhook"
 	"github.com/jirenius/taskqueue"
 )
 
@@ -187,6 +188,7 @@ func (qs *QueryStore) handleChange(id string, before, after interface{}) {
 func (qs *QueryStore) updateIndex(id string, before, after interface{}) error {
 	updated := false
 	errmsg := ""
+	verifhook.Crash("index-before")
 	err := qs.st.DB.Update(func(txn *badger.Txn) error {
 		rname := []byte(id)
 		// Update index entries
@@ -226,6 +228,7 @@ func (qs *QueryStore) updateIndex(id string, before, after interface{}) error {
 	if err != nil {
 		return err
 	}
+	verifhook.Crash("index-committed")
 	if errmsg != "" {
 		return errors.New("failed to update resource [" + id + "] index:" + errmsg)
 	}
